@@ -85,7 +85,8 @@ class PACTAct(Quantizer):
         :return: the scale factor
         :rtype: torch.Tensor
         """
-        return self.clip_val.data[0] / (2 ** self.precision - 1)
+        # same stabilization constant used in the forward pass (see PACTActSTE)
+        return (self.clip_val.data[0] + 1e-3) / (2 ** self.precision - 1)
 
     def summary(self) -> Dict[str, Any]:
         """Export a dictionary with the optimized layer quantization hyperparameters
